@@ -17,7 +17,7 @@ plus all lists of 4 (quick) / 5 (thorough) lines over a 3-text alphabet at batch
 also comes after an earlier batch succeeded).  The call may raise (any exception); every line it RETURNS is judged like any other result.
 
 (f) histories on one live engine: constructed with max_line_width W0 in {none, 32, 64, 128}, used or not, then `engine.max_line_width`
-assigned 1 (quick) / 1..2 (thorough) other values of {32, 64, 128}, process_lines after every assignment: each use must equal the reference
+assigned 1 (quick) / 1..2 (thorough, single lines) other values of {32, 64, 128}, process_lines after every assignment: each use must equal the reference
 merge of the line's 25 % windows for the width that is configured at the time of the call, and must not lose painted characters.
 
 Oracle: a boring reference model with explicit slice arithmetic (cut ceil(o/2) characters from the text merged so far,
@@ -35,8 +35,8 @@ MANIFEST = dict(
     note='The overlap detector (find_best_overlap) is taken from the implementation and only sanity-checked (range, CER<1); alphabet and lengths are bounded.',
     ref='3/C15')
 
-BOUNDS = {'quick': dict(Lmin=5, Lmax=7, pair_len=4, engine_lines=2, two_len=6, fault_lines=2, fault_long_lines=4, reconf_lines=1, reconf_depth=1),
-          'thorough': dict(Lmin=5, Lmax=9, pair_len=5, engine_lines=3, two_len=8, fault_lines=3, fault_long_lines=5, reconf_lines=2, reconf_depth=2)}
+BOUNDS = {'quick': dict(Lmin=5, Lmax=7, pair_len=4, engine_lines=2, two_len=6, fault_lines=2, alloc_fault_lines=2, fault_long_lines=4, reconf_lines=1, reconf_depth=1),
+          'thorough': dict(Lmin=5, Lmax=9, pair_len=5, engine_lines=3, two_len=8, fault_lines=3, alloc_fault_lines=2, fault_long_lines=5, reconf_lines=2, reconf_depth=2)}
 BOUNDS['replay'] = BOUNDS['quick']
 
 
@@ -288,7 +288,7 @@ def check_engine_under_fault(case, ctx, eng, seen, texts, mlw, fault, K, desc):
         if k is None:
             if kind == 'raised':
                 raise val                                # no fault injected: as in the plain sweep
-            calls = len(seen)
+            calls = inj.count                        # dependency calls of the fault-free run (for 'oom': recogniser calls)
             if check_engine_result(ctx, K, desc, texts, mlw, *val) is False:
                 return False
             continue
@@ -369,6 +369,8 @@ def run_shard(shard, ctx, tier):
             for rest in itertools.product(range(n), repeat=L - 1):
                 for bs in (1, 4):
                     for fault in ENGINE_FAULTS:
+                        if fault == 'alloc' and L > b['alloc_fault_lines']:
+                            continue                     # dozens of allocations per line (edit-distance tables of the overlap search)
                         guarded_check(mod, {'engine': [shard['first']] + list(rest), 'bs': bs, 'fault': fault}, ctx)
     elif shard['kind'] == 'engine-fault-long':
         # lists long enough to need several recogniser calls (batch_size 1: three lines per call): the recogniser also fails AFTER the
@@ -381,7 +383,7 @@ def run_shard(shard, ctx, tier):
         for L in range(1, b['reconf_lines'] + 1):
             for rest in itertools.product(range(n), repeat=L - 1):
                 for bs in (1, 4):
-                    for hist, use_first in reconf_histories(b['reconf_depth']):
+                    for hist, use_first in reconf_histories(b['reconf_depth'] if L == 1 else 1):
                         guarded_check(mod, {'engine': [shard['first']] + list(rest), 'bs': bs, 'mlw': hist, 'use_first': use_first}, ctx)
     else:
         L, w = shard['L'], shard['w']
@@ -526,7 +528,7 @@ def describe(tier):
                 'Non-trivial: a list whose merges have both a zero and a positive detected overlap. Engine: all lists of 1..engine_lines painted '
                 'lines x batch size {1,4}; the same lists (1..fault_lines) x every failing dependency call (recogniser out of memory, numpy '
                 'allocation) + all lists of fault_long_lines lines over 3 texts at batch size 1; all lists of 1..reconf_lines lines x batch size x '
-                'every history construct(W0), [use], 1..reconf_depth assignments of max_line_width (each followed by a use).',
+                'every history construct(W0), [use], 1..reconf_depth (lists of several lines: 1) assignments of max_line_width (each followed by a use).',
         'bounds': BOUNDS[tier], 'alphabets': {'lists': 'ab', 'pairs': 'abc', 'windows': 'ab (+c as noise)'},
         'assumptions': ['the detected overlap is the implementation\'s find_best_overlap (sanity-checked only)'],
         'min_nontrivial': 20, 'required_tags': ['parts-longer-than-255', 'unique-exact-overlap', 'second-window-only-repeats-the-overlap', 'zero-overlap', 'odd-overlap', 'empty-part', 'noisy-overlap', 'split-lines-merged', 'engine-empty-part',
